@@ -576,6 +576,10 @@ def eval_rt(case):
         obj = parts[0]
     else:
         obj = list(parts)
+    if case.get("single_track"):
+        # all events sit on one (non-zero) track number: the file has one track, read back as track 0
+        for k in trackmap:
+            trackmap[k] = 0
 
     clock = [lambda k: M.tick_seconds(k, ppq, mpq)]
     try:
@@ -736,7 +740,7 @@ def valid_rt(case):
         return not meta_tracks
     if case["inp"] != "perf":
         trs = sorted(set(t for _, t in used))
-        if trs != list(range(len(trs))):
+        if trs != list(range(len(trs))) and not (case.get("single_track") and len(trs) == 1 and not meta_tracks):
             return False
         ntracks = len(trs)
     else:
@@ -802,6 +806,28 @@ def gen_one_note(configs, inputs, merges, stride=1):
                         loader = "lp" if (i % 5 == 0 and io != "object") else "lpm"
                         defaults = cfg == (480, 500000) and i % 3 == 1
                         c = _rt([part], cfg, inp, mg, io, loader, defaults=defaults)
+                        if valid_rt(c):
+                            yield c
+
+
+def gen_single_track():
+    """part / list input whose events all sit on one track number other than 0 (no Performance wrapper, so
+    nothing renumbers the tracks before export)"""
+    i = 0
+    for cfg in CONFIGS:
+        T = sorted(set(_times(cfg, ONE_TICKS) + ONE_SECS))
+        picks = [(0, 1), (1, len(T) - 1), (2, 2), (len(T) // 2, len(T) - 2)]
+        for inp in ("ppart", "list"):
+            for tr in (1, 2, 7):
+                for a, b in picks:
+                    for mg in MERGES:
+                        i += 1
+                        ch = [0, 1, 15][i % 3]
+                        part = dict(notes=[[60, T[a], T[b], [1, 64, 127][i % 3], ch, tr], [67, T[a], T[b], 80, ch, tr]],
+                                    controls=[[T[(i * 7) % len(T)], 64, (i * 11) % 128, ch, tr]])
+                        if i % 2 == 0:
+                            part["programs"] = [[T[0], (i * 13) % 128, ch, tr]]
+                        c = _rt([part], cfg, inp, mg, IOS[i % 3], "lpm", single_track=1)
                         if valid_rt(c):
                             yield c
 
@@ -1286,6 +1312,8 @@ def spaces(tier, seed):
                     "1 note, every (onset<=offset) pair of 15 times (exact ticks, k+1/2 ties, k+.49/.51, thirds, "
                     "decimals) x 9 (ppq,mpq) x 3 input kinds x 4 merge combinations; velocity, channel, one control "
                     "(any number/value), program, signature, text, output kind and loader cycled"))
+    sp.append(Space("rt-single-track", gen_single_track, True,
+                    "part and one-element list input with all events on track number 1, 2 or 7 (no track 0) x 9 (ppq, mpq) x merges x 4 time pairs"))
     sp.append(Space("rt-ranges", gen_ranges, True, "every velocity 1..127 x every channel 0..15, one note + one control"))
     sp.append(Space("rt-defaults", gen_defaults, True,
                     "omitted channel/track keys on notes, controls, programs x default ppq/mpq/merge arguments x part/list x merge on save"))
@@ -1342,7 +1370,7 @@ def spaces(tier, seed):
     sp.append(Space("raw-keys", gen_raw_keys, True,
                     "nested notes for all ordered pairs of (channel{0,1,2,15}, pitch{0,1,126,127}); every channel x pitch{0,60,127} x velocity{1,127}"))
     # files first, then the round trips from small to large (the runner keeps the first 20000 violations)
-    order = ["unit-time", "raw-keys", "raw-pairing", "raw-tempo", "rt-defaults", "rt-signatures", "rt-ranges",
+    order = ["unit-time", "raw-keys", "raw-pairing", "raw-tempo", "rt-defaults", "rt-single-track", "rt-signatures", "rt-ranges",
              "rt-multi-part", "rt-multi-part-3", "rt-two-notes", "rt-events", "rt-three-notes", "rt-one-note"]
     sp.sort(key=lambda s: order.index(s.name))
     return sp
